@@ -114,9 +114,9 @@ def Draws.nums : Draws → List Int
   | _ => []
 
 /-- `ReleasePolicy.get_release_times(completion_time)`.
-`horizon = none` models a `completion_time` that is not an `EventTime`
-(the `int` that `WorkloadLoader` passes when it is given flags): only the
-periodic branch touches it, and fails with `AttributeError`. -/
+`horizon = none` models a `completion_time` that is not an `EventTime` (for
+instance a bare `int`): only the periodic branch touches it, and fails with
+`AttributeError`.  `WorkloadLoader` passes `EventTime(flags.loop_timeout)`. -/
 def getReleaseTimes (p : Policy) (horizon : Option Int) (d : Draws) : Except String (List Int) :=
   if p.n = 0 then .ok [] else
   match p.kind with
